@@ -73,7 +73,8 @@ DenseVectors(n) == {v \in [1..n -> 0..(n - 1)] : \A k \in 0..(n - 1) : (\E i \in
 RanksPV(v, n) == PList([i \in 1..n |-> PInt(ToString(v[i]))])
 
 \* outcome arguments over mixed values: ints, floats, negative, bools, as ranks and as scores, and omitted
-EncValues == {PInt("-1"), PInt("0"), PFloat("0.0"), PInt("1"), PFloat("1.0"), PFloat("2.5"), PBool(TRUE), PBool(FALSE), PFloat("-0.0")}
+EncValues == {PInt("-1"), PInt("0"), PFloat("0.0"), PInt("1"), PFloat("1.0"), PFloat("2.5"), PBool(TRUE), PBool(FALSE), PFloat("-0.0"),
+              PFloat("0.5"), PInt("2")}
 EncVectors(n) == [1..n -> EncValues]
 EncCalls(n) == {[ranks |-> PList(v), scores |-> PNone] : v \in EncVectors(n)}
                \cup {[ranks |-> PNone, scores |-> PList(v)] : v \in EncVectors(n)}
